@@ -31,7 +31,12 @@ SOUP = ['1', '2', '0.5', '007', '1E+2', '"a"', '"x""y"', 'TRUE', '#N/A', '#REF!'
         'A1', '$B$2', 'A1:B2', 'Sheet1!C3', 'name', 'SUM(', 'IF(', 'foo(', '(',
         ')', ',', ';', '{', '}', '+', '-', '*', '/', '^', '&', '=', '<', '>',
         '<=', '>=', '<>', '%', ':', ' ', '  ', '!', "'", '"', '.', '@', '#',
-        '$', '[', ']', 'E', '1.', '.', '..']
+        '$', '[', ']', 'E', '1.', '.', '..',
+        # reference forms the lexer knows by name
+        'ANCHORARRAY(', '_xlfn.ANCHORARRAY(', 'INDIRECT("', '_xlfn.SINGLE(', '_xlfn.', 'A:A', '1:1',
+        'R1C1', 'R[1]C[1]', 'A1#', "'S 1'!", '[1]S!', "'[B.xlsx]S'!", '#ref!', '#NULL!',
+        'ANCHORARRAY(A1)', 'ANCHORARRAY(A1:B2)', '_xlfn.ANCHORARRAY(A:A)', 'ANCHORARRAY(name)',
+        'INDIRECT("A1")', 'INDIRECT("A1:B2")', 'INDIRECT("x y")', '_xlfn.SINGLE(A1:B2)']
 PRINTABLE = [chr(c) for c in range(32, 127)] + ['é', 'ß', '€', '中', ' ']
 
 
